@@ -216,6 +216,7 @@ def run(ctx, rep):
     literal_kinds(F, rep)
     only_table_operators_are_folded(F, rep)
     short_circuit_is_respected(F, rep)
+    smallest_modulo_minus_one(F, rep)
     # the folder computes on the exact decimal text and refuses what does not fit (a shift amount beyond u32); the interpreter agrees on *failing* only
     # if it does not narrow an operand before it operates (`amount as u32` turns B4294967300 into 4): C05's inventory of casts in the operator impls
     from props import C05 as _c05
@@ -261,6 +262,25 @@ def _helper_returns_evaluations(F, call, through):
         return False
     lv = _leaves(g, 0, through)
     return bool(lv) and all(x[0] == "call" and x[1].endswith("::try_constexpr_eval") for x in lv)
+
+
+def smallest_modulo_minus_one(F, rep, rule="C06.failure-equivalence"):
+    """The folder's `%` is exact (`x % -1` folds to 0 for every x); the machine remainder overflows for the smallest value of a width.  The interpreter
+    therefore answers that one case itself, for every pairing of kinds that reaches it: int MIN % int -1, bigint MIN % bigint -1 and - the int operand
+    being widened - bigint MIN % int -1.  Evaluated on those operands: the interpreter's Rem must answer, not panic."""
+    from absint import Int
+    from props import _optables
+    T = _optables.get(F).T
+    rows = [("Int", -(2**31), "i32", "Int", -1, "i32"), ("BigInt", -(2**127), "i128", "BigInt", -1, "i128"), ("BigInt", -(2**127), "i128", "Int", -1, "i32")]
+    n = 0
+    for lk, lv, lt, rk, rv, rt_ in rows:
+        out = T.runtime("Rem", lk, rk, lpayload=Int(lv, lt), rpayload=Int(rv, rt_))
+        n += 1
+        bad = [x for x in out if x[0] != "Ok"]
+        rep.ob(rule, "%s(%d) %% %s(-1) is answered by the interpreter as the folder answers it (0)" % (lk.lower(), lv, rk.lower()), "violated" if bad else "ok",
+               ("the interpreter's Rem yields %s: the literal expression folds to 0, the same operands through variables stop the program"
+                % sorted((x[0], str(x[1])) for x in bad)) if bad else "", None, fn="bytecode::variables::ops::rem", key="%s|Modulo|smallest|%s,%s" % (rule, lk.lower(), rk.lower()))
+    rep.floor(rule + " smallest-value remainders evaluated", n, 3)
 
 
 def short_circuit_is_respected(F, rep, rule="C06.short-circuit"):
